@@ -236,7 +236,11 @@ def shapeop_case(rng, tier):
         s, t = rng.choice([((2, 3), (3, 2)), ((2, 3), (6,)), ((4,), (2, 2)), ((2, 2, 3), (4, 3)), ((3,), (3, 1)), ((6,), (1, 2, 3))])
         c['x'], c['shape'] = intdata(rng, (D, P) + s), list(t)
     elif op in ('transpose', 'T', 'triu', 'tril', 'trace', 'diag2'):
-        c['x'] = intdata(rng, (D, P, rng.randint(1, 3), rng.randint(1, 3)) if op in ('transpose', 'T') else (D, P) + (rng.randint(1, 3),) * 2)
+        if op in ('transpose', 'T'):
+            # any number of array axes (NumPy's .T reverses all of them)
+            c['x'] = intdata(rng, (D, P) + tuple(rng.randint(1, 3) for _ in range(rng.choice([0, 1, 2, 2, 3, 4, 5]))))
+        else:
+            c['x'] = intdata(rng, (D, P) + (rng.randint(1, 3),) * 2)
     elif op == 'sum':
         s = tuple(rng.randint(1, 3) for _ in range(rng.randint(1, 3)))
         c['x'], c['axis'] = intdata(rng, (D, P) + s), rng.choice([None] + list(range(-len(s), len(s))))
@@ -339,7 +343,7 @@ def shapeop_fails(ctx, case):
         if isinstance(m, str) or not np.array_equal(m[0], y.data):
             return 'reshape-model: differs from the row-major model'
     if op in ('transpose', 'T'):
-        m = ctx.model.arrs({'op': 'np', 'what': 'transpose', 'x': enc_arr(x), 'perm': [0, 1, 3, 2]})
+        m = ctx.model.arrs({'op': 'np', 'what': 'transpose', 'x': enc_arr(x), 'perm': [0, 1] + list(range(x.ndim - 1, 1, -1))})
         if isinstance(m, str) or not np.array_equal(m[0], y.data):
             return 'transpose-model: differs from the axis-permutation model'
     return None
